@@ -20,7 +20,7 @@ def idxEnvOf (s : SExp) : IdxEnv :=
   | _ => fun _ => 0
 
 def showRes : Option Expr → String
-  | some e => if e == Expr.unsupported then "(unsupported)" else s!"(ok {e.print})"
+  | some e => if Expr.isUnsupported e then "(unsupported)" else s!"(ok {e.print})"
   | none => "(raises)"
 
 def idxList : Expr → Option (List Idx)
